@@ -27,7 +27,7 @@ ADAPTER = "search_impl.py"
 KSIZE = 31
 MAX_SQLITE_INT = 2 ** 63 - 1
 
-LINEAR = ["lin", "lazy", "dir", "plist", "zip", "mf"]
+LINEAR = ["lin", "lazy", "dir", "plist", "zip", "mf", "zipnm"]
 
 
 # --------------------------------------------------------------------------
@@ -114,6 +114,7 @@ class Sk:
     def __init__(self, st, name):
         self.num, self.mh, self.sc, self.track = st["num"], st["mh"], st["sc"], st["tr"]
         self.hashes = list(st["mins"])
+        self.ab = dict(zip(st["mins"], st["ab"])) if st["ab"] is not None else None
         self.name = name
         self.md5 = common.md5_of_pre(KSIZE, self.hashes)
 
@@ -121,6 +122,7 @@ class Sk:
         import copy
         c = copy.copy(self)
         c.sc, c.mh, c.track = S, M, False
+        c.ab = None
         c.hashes = [h for h in self.hashes if h <= M]
         c.md5 = common.md5_of_pre(KSIZE, c.hashes)
         return c
@@ -202,7 +204,7 @@ def documented_refusal(op, spec, mode, q, db, bp=None):
     """exception class the container documents for this query, or None.  Sources: JaccardSearch.check_is_compatible,
     make_containment_query, Index.prefetch, SBT.select / LCA_Database.select / SqliteIndex._select docstrings and messages."""
     kind = kind_of(spec)
-    indexed = kind in ("sbt", "lca", "sql")
+    indexed = kind in ("sbt", "lca", "sql", "lcasql")
     containment = (op != "search" and op != "searchord") or mode in ("c", "m")
     if indexed and db:
         d0 = db[0]
@@ -220,7 +222,7 @@ def documented_refusal(op, spec, mode, q, db, bp=None):
                 return "ValueError"
             if q.sc > max(x.sc for x in db) and not containment:
                 return "ValueError"
-        if kind == "sql" and q.num:
+        if kind in ("sql", "lcasql") and q.num:
             return "ValueError"
     if op in ("prefetch", "best"):
         if not db:
@@ -242,7 +244,7 @@ def loud_but_empty(op, spec, q, db, err):
     """errors that are not documented refusals but cannot hide a match: the brute-force answer is
     necessarily empty (empty database / query empty after downsampling).  Counted in the evidence."""
     kind = kind_of(spec)
-    if not db and kind in ("sbt", "lca", "sql"):
+    if not db and kind in ("sbt", "lca", "sql", "lcasql"):
         return True
     return False
 
@@ -263,6 +265,11 @@ def parse_case(case, impl):
                 sk[int(w[1])] = Sk(st, w[5])
         elif w[0] == "db" and obs.startswith("ok"):
             db = [int(x) for x in w[1:]]
+        elif w[0] == "insert" and obs.startswith("ok"):
+            db = db + [int(w[1])]
+        elif w[0] == "insert" and obs.startswith("viewfail"):
+            db = db + [int(w[1])]
+            out.append((idx, "insert", w[1:], obs, (dict(sk), list(db), q)))
         elif w[0] == "q" and obs == "ok":
             q = int(w[1])
         elif w[0] in ("search", "searchord", "prefetch", "best", "clisearch", "cliprefetch"):
@@ -283,6 +290,13 @@ def oracle(case, impl):
     for idx, op, a, obs, (sk, dbids, qi) in parse_case(case, impl):
         if qi is None or qi not in sk or any(i not in sk for i in dbids) or obs == "bad-op":
             continue
+        if obs.startswith("viewfail "):
+            what = obs.split()[1]
+            bad.append((idx, "C06:view:" + ":".join(what.split(":")[:2]),
+                        f"`{case[idx]}`: two views of the same container / result disagree, or an earlier result changed: {what}"))
+            continue
+        if op == "insert":
+            continue
         if op in ("clisearch", "cliprefetch"):
             oracle_cli(idx, op, a, obs, sk, qi, case, bad)
             continue
@@ -290,7 +304,7 @@ def oracle(case, impl):
         db = [sk[i] for i in dbids]
         spec = a[0]
         kind = kind_of(spec)
-        if kind == "lca" and db and all(d.sc for d in db):
+        if kind in ("lca", "lcasql") and db and all(d.sc for d in db):
             # an LCA database has ONE scaled value: `insert` stores every sketch downsampled to it, and that
             # stored sketch is the subject of the search (and what is returned)
             S = max(x.sc for x in db)
@@ -433,7 +447,7 @@ def _db_groups(spec, sk):
     for part in spec.split(";"):
         kind, ids = part.split(":")
         ents = [sk[int(i)] for i in ids.split(",") if i != ""]
-        if kind == "lca" and ents:
+        if kind in ("lca", "lcasql") and ents:
             S = max(x.sc for x in ents)
             M = max(x.mh for x in ents if x.sc == S)
             ents = [e.at_scaled(S, M) for e in ents]
@@ -458,6 +472,48 @@ def _code_prefetch_rule(bp, q, d):
     return sh / qs >= thr
 
 
+EXT = {"sig": ".sig", "zip": ".zip", "sbt": ".sbt.zip", "lca": ".lca.json", "sql": ".sqldb", "lcasql": ".lca.sqldb"}
+ORDERED_KINDS = ("sig", "dir", "zip", "mf")      # iteration order = the order the sketches were written in
+
+
+def _expected_loc(idx, n, kind, j):
+    """the location a row for entry j of database n must report (names are functions of the op's position)"""
+    if kind in EXT:
+        return f"c{idx}_{n}{EXT[kind]}"
+    return f"c{idx}_{n}_{ {'dir': 'dir', 'mf': 'mf', 'plist': 'pl'}[kind] }/{j:03d}.sig".replace(" ", "")
+
+
+def _angular(q, d):
+    """abundance-weighted (angular) similarity after downsampling both to the coarser scaled"""
+    if q.sc >= d.sc:
+        A = dict(q.ab)
+        B = {h: v for h, v in d.ab.items() if h <= q.mh}
+    else:
+        A = {h: v for h, v in q.ab.items() if h <= d.mh}
+        B = dict(d.ab)
+    na = math.sqrt(sum(v * v for v in A.values()))
+    nb = math.sqrt(sum(v * v for v in B.values()))
+    if na == 0 or nb == 0:
+        return 0.0
+    prod = min(1.0, sum(v * B.get(h, 0) for h, v in A.items()) / (na * nb))
+    return 1.0 - 2.0 * math.acos(prod) / math.pi
+
+
+def _linear_best_only(mode, thr, q, ents):
+    """what one list-like database returns for a best-only search, in its own order"""
+    out = []
+    cur = thr
+    for pos, d in enumerate(ents):
+        s = sizes(q, d)
+        if s is None:
+            continue
+        sc = score_of(mode, *s)
+        if sc is not None and sc >= cur:
+            out.append((pos, sc))
+            cur = max(cur, sc)
+    return out
+
+
 def oracle_cli(idx, op, a, obs, sk, qi, case, bad):
     q = sk[qi]
     line = case[idx]
@@ -467,29 +523,55 @@ def oracle_cli(idx, op, a, obs, sk, qi, case, bad):
         return          # a shrunk / foreign case that no longer defines every sketch
     if obs == "bad-op":
         return
+    nofail = obs.endswith(" F=1")           # the command was run with --no-fail-on-empty-database
+    if nofail:
+        obs = obs[:-4]
+    if " R=differs" in obs:
+        bad.append((idx, "C06:cli:repeat-differs", f"`{line}`: the same command run twice gave two different CSVs"))
     if op == "clisearch":
         mode, best, thr, nres, ignore = a[1], int(a[2]), float(a[3]), int(a[4]), int(a[5])
         containment = mode in ("c", "m")
-        if q.track and not ignore:
-            # abundance-weighted search (angular similarity: C05's subject): command line == API only
-            if obs.startswith("ok "):
-                o = _parse_cli_obs(obs)
-                if o["C"] != o["A"]:
-                    bad.append((idx, "C06:cli:search-abund-differs-from-api", f"`{line}`: CSV rows {o['C'][:3]} != in-process {o['A'][:3]}"))
-                STATS["cli_checked"] += 1
-            return
-        if q.track:
+        abund = q.track and not ignore
+        if abund:
+            # abundance-weighted search: containment is refused, a flat subject is refused (TypeError -> exit)
+            po = set()
+            if nofail:
+                # (databases the selection refuses or empties are passed over BEFORE the search looks at their sketches)
+                po = {n for n, (kind, ents) in enumerate(groups) if ents and (
+                    (q.num and not any(d.num == q.num for d in ents)) or
+                    (kind in ("sbt", "lca") and not containment and q.sc and q.sc > ents[0].sc))}
+            if containment or any(not d.track for n, (_, ents) in enumerate(groups) if n not in po for d in ents):
+                if not obs.startswith("exit"):
+                    bad.append((idx, "C06:cli:abund-search-not-refused", f"`{line}`: {obs[:80]}"))
+                _bump(STATS["cli_skipped"], "documented refusal (abundance query: containment, or a flat subject)")
+                return
+        if q.track and ignore:
             q = q.at_scaled(q.sc, q.mh)
         if not q.sc and containment:
             if not (obs.startswith("exit") or obs.startswith("err")):
                 bad.append((idx, "C06:cli:containment-num-query-not-refused", f"`{line}`: {obs[:80]}"))
             return
+        passed_over = set()
+        if q.num and any(ents and not any(d.num == q.num for d in ents) for _, ents in groups):
+            # documented: select(num=N) keeps only sketches with that num; an emptied database stops the command
+            # (with --no-fail-on-empty-database it is passed over)
+            if nofail:
+                passed_over |= {n for n, (_, ents) in enumerate(groups) if ents and not any(d.num == q.num for d in ents)}
+            else:
+                if not obs.startswith("exit"):
+                    bad.append((idx, "C06:cli:num-mismatch-not-refused", f"`{line}`: {obs[:80]}"))
+                _bump(STATS["cli_skipped"], "documented refusal (num query against sketches of another num)")
+                return
         if obs == "err ValueError" and mode == "j":
             _bump(STATS["cli_skipped"], "search aborted in ANI estimation (ValueError varN<0.0: finding D16 of C17)")
             return
         refused = any(kind in ("sbt", "lca") and ents and not containment and q.sc and q.sc > ents[0].sc
                       for kind, ents in groups)
-        if refused:
+        if refused and nofail:
+            passed_over |= {n for n, (kind, ents) in enumerate(groups)
+                            if kind in ("sbt", "lca") and ents and q.sc > ents[0].sc}
+            STATS["cli_nofail_passed_over"] = STATS.get("cli_nofail_passed_over", 0) + 1
+        elif refused:
             # documented: select() refuses a Jaccard search with a query coarser than the database; the command
             # reports it and stops (--fail-on-empty-database is the default)
             if not obs.startswith("exit"):
@@ -505,50 +587,107 @@ def oracle_cli(idx, op, a, obs, sk, qi, case, bad):
             bad.append((idx, f"C06:cli:search-failed:{obs.split()[-1]}", f"`{line}`: sourmash search ended with `{obs}`"))
             return
         o = _parse_cli_obs(obs)
-        exp = {}
-        for kind, ents in groups:
-            if not ents:
-                continue
-            if kind in ("sbt", "lca") and not containment and q.sc and q.sc > ents[0].sc:
-                continue            # documented: select() refuses, the command reports it and goes on
-            if kind in ("sbt", "lca", "sql") and q.num and kind != "sbt":
-                continue
-            for pos, sc in brute(mode, thr, q, ents):
-                d = ents[pos]
-                exp.setdefault((d.md5, d.sc, d.num), sc)
-        expl = sorted((k[0], v) for k, v in exp.items())
         got = []
         for it in o["C"]:
-            name, md5, hx = it.rsplit("/", 2)
-            got.append((md5, float.fromhex(hx)))
-        scores = [g[1] for g in got]
+            name, md5, hx, floc, qn, qm = it.split("|")
+            got.append((name, md5, float.fromhex(hx), floc, qn, qm))
+        qname, qmd5 = o["Q"][0].split("/")
+        for g in got:
+            if (g[4], g[5]) != (qname, qmd5):
+                bad.append((idx, "C06:cli:search-query-fields", f"`{line}`: row reports query {g[4]}/{g[5]}, the query is {qname}/{qmd5}"))
+                break
+        scores = [g[2] for g in got]
         if any(scores[i] < scores[i + 1] for i in range(len(scores) - 1)):
             bad.append((idx, "C06:cli:search-unsorted", f"`{line}`: CSV rows are not sorted by descending similarity"))
-        if o["C"] != o["A"]:
+        if ["|".join(x.split("|")[:3]) for x in o["C"]] != o["A"]:
             bad.append((idx, "C06:cli:search-differs-from-api", f"`{line}`: CSV rows {o['C'][:3]} != in-process {o['A'][:3]}"))
-        if sorted(x.rsplit("/", 1)[0] for x in o["C"]) != sorted(o["S"]):
+        if sorted({f"{g[0]}/{g[1]}" for g in got}) != sorted(set(o["S"])):
             bad.append((idx, "C06:cli:save-matches-differs-from-rows", f"`{line}`: --save-matches holds {o['S'][:3]}, the CSV {o['C'][:3]}"))
-        if best:
-            extra = [g for g in got if g not in expl]
-            top = [e for e in expl if e[1] == max(x[1] for x in expl)] if expl else []
-            # best-only is per database: every global maximum is the maximum of its database
-            missing = [e for e in top if e not in got]
-            if extra or missing:
-                bad.append((idx, "C06:cli:search-best-only", f"`{line}`: rows {got[:3]}; not brute-force matches {extra[:3]}; best missing {missing[:3]}"))
-            want_d = 1 if got else 0
-        else:
-            if sorted(got) != expl:
-                missing = [e for e in expl if e not in got]
-                extra = [g for g in got if g not in expl]
-                bad.append((idx, f"C06:cli:search-{'omitted' if missing else 'invented'}:{mode}",
-                            f"`{line}`: CSV has {len(got)} rows, brute force {len(expl)}; missing {missing[:3]} extra {extra[:3]}"))
-            want_d = len(got) if not nres else min(nres, len(got))
+        # what every database contributes: key -> (score, admissible (name, location) pairs), first database wins
+        exp = {}
+        exact = True
+        dedup_lost = []
+        for n, (kind, ents) in enumerate(groups):
+            if not ents or n in passed_over:
+                continue
+            if abund:
+                res = []
+                for pos, d in enumerate(ents):
+                    sc = _angular(q, d)
+                    if abs(sc - thr) < 1e-9:
+                        exact = False
+                    if sc >= thr:
+                        res.append((pos, sc))
+            elif best:
+                if kind in ORDERED_KINDS:
+                    res = _linear_best_only(mode, thr, q, ents)
+                else:
+                    exact = False
+                    res = brute(mode, thr, q, ents)
+            else:
+                res = brute(mode, thr, q, ents)
+            if abund:
+                res.sort(key=lambda x: -x[1])       # search_abund hands its matches over best first
+            for pos, sc in res:
+                d = ents[pos]
+                # a duplicate is the same SKETCH: for an abundance search the abundances belong to the sketch
+                key = (d.md5, d.sc, d.num) + ((tuple(sorted(d.ab.items())),) if abund else ())
+                if key not in exp:
+                    exp[key] = [sc, n, set()]
+                if exp[key][1] == n or (best and any(k not in ORDERED_KINDS for k, _ in groups)):
+                    # (best-only over a database of unknown order: which database yields a sketch first is not determined)
+                    exp[key][2].add((d.name, _expected_loc(idx, n, kind, pos)))
+        tol = 1e-9 if abund else 0.0
+
+        def matches(g, key):
+            e = exp[key]
+            return g[1] == key[0] and abs(g[2] - e[0]) <= tol and (g[0], g[3]) in e[2]
+        used = set()
+        extra = []
+        for g in got:
+            ks = [k for k in exp if k not in used and matches(g, k)]
+            if ks:
+                used.add(ks[0])
+            else:
+                extra.append(g[:4])
+        if abund:
+            # same hashes, other abundances: another sketch (another angular similarity).  The code's duplicate key
+            # (md5, scaled, num) does not see the abundances (finding C06.3): such a row is reported under its own name
+            for k in [k for k in exp if k not in used]:
+                kept = [u for u in used if u[:3] == k[:3]]
+                if kept:
+                    dedup_lost.append((sorted(exp[k][2])[0][0], exp[k][0], exp[kept[0]][0]))
+                    used.add(k)
+        missing = [(k[0], exp[k][0], sorted(exp[k][2])[:2]) for k in exp if k not in used]
+        if best and not exact:
+            # some database iterates in an order the oracle does not know: every row is a brute-force match; the
+            # maxima of every database are present
+            top = max((exp[k][0] for k in exp), default=None)
+            missing = [m for m in missing if m[1] == top]
+        if (extra or missing) and (exact or not abund):
+            wrong_loc = [g for g in extra if any(g[1] == k[0] and abs(g[2] - exp[k][0]) <= tol for k in exp)]
+            if extra and len(wrong_loc) == len(extra) and not missing or (wrong_loc and len(missing) == len(wrong_loc)):
+                sig = "C06:cli:search-row-name-or-location"
+            elif best:
+                sig = "C06:cli:search-best-only"
+            else:
+                sig = f"C06:cli:search-{'omitted' if missing else 'invented'}:{'abund' if abund else mode}"
+            bad.append((idx, sig, f"`{line}`: CSV rows not expected {extra[:3]}; expected rows missing {missing[:3]} "
+                                  f"(of {len(got)} rows, {len(exp)} expected)"))
+        if dedup_lost:
+            bad.append((idx, "C06:cli:abund-search-drops-same-hashes-other-abundances",
+                        f"`{line}`: {dedup_lost[:2]} (name, its score, score of the sketch kept) -- sketches with the same hashes but "
+                        f"different abundances (same md5, different angular similarity) are de-duplicated away"))
+        want_d = (1 if got else 0) if best else (len(got) if not nres else min(nres, len(got)))
         if int(o["D"][0]) != want_d:
             bad.append((idx, "C06:cli:num-results", f"`{line}`: {o['D'][0]} matches displayed, expected {want_d} of {len(got)}"))
         STATS["cli_checked"] += 1
+        if abund:
+            STATS["cli_abund_checked"] = STATS.get("cli_abund_checked", 0) + 1
         return
     # ---- prefetch
     bp = float(a[1])
+    q0 = q
     if q.track:
         q = q.at_scaled(q.sc, q.mh)
     if not q.sc or not q.hashes:
@@ -565,7 +704,8 @@ def oracle_cli(idx, op, a, obs, sk, qi, case, bad):
             S = max(q.sc, d.sc)
             ok = sh > 0 and sh * S >= bp
             if ok:
-                exp.append((d.name, d.md5[:8], sh * S, S))
+                exp.append((d.name, d.md5[:8], sh * S, S,
+                            f"{len(q.hashes) * q.sc}:{len(d.hashes) * d.sc}:{len(q.hashes)}:{(sh / tot).hex()}:{KSIZE}:DNA:False"))
             if d.sc > q.sc and _code_prefetch_rule(bp, q, d) != ok:
                 invented.append(d.name)
     if bp and (bp / q.sc) / len(q.hashes) > 1.0:
@@ -577,31 +717,38 @@ def oracle_cli(idx, op, a, obs, sk, qi, case, bad):
                     f"`{line}`: sourmash prefetch aborts with ValueError (max() of no hashes in SqliteIndex._get_matching_sketches)"))
         return
     if not obs.startswith("ok "):
-        if invented and obs == "err AssertionError":
-            # PrefetchResult.pass_threshold re-checks in base pairs what find() decided on the stale fraction
-            bad.append((idx, "C06:prefetch-bp-threshold-converted-at-query-original-scaled",
-                        f"`{line}`: sourmash prefetch aborts on `assert result.pass_threshold` for {invented[:3]}"))
-        else:
-            bad.append((idx, f"C06:cli:prefetch-failed:{obs.split()[-1]}", f"`{line}`: sourmash prefetch ended with `{obs}`"))
+        bad.append((idx, f"C06:cli:prefetch-failed:{obs.split()[-1]}", f"`{line}`: sourmash prefetch ended with `{obs}`"))
         return
     o = _parse_cli_obs(obs)
     got = []
+    qname, qmd5 = o["Q"][0].split("/")
     for it in o["C"]:
-        name, md5, rest = it.rsplit("/", 2)
+        name, md5, rest, fields, floc, qn, qm = it.split("|")
         ibp, scd = rest.split(":")
-        got.append((name, md5, int(float(ibp)), int(scd)))
-    if sorted(got) != sorted(exp):
-        missing = [e for e in exp if e not in got]
-        extra = [g for g in got if g not in exp]
+        got.append((name, md5, int(float(ibp)), int(scd), fields))
+        if (qn, qm) != (qname, qmd5):
+            bad.append((idx, "C06:cli:prefetch-query-fields", f"`{line}`: row reports query {qn}/{qm}, the query is {qname}/{qmd5}"))
+    if sorted(g[:4] for g in got) != sorted(e[:4] for e in exp):
+        missing = [e[:4] for e in exp if e[:4] not in [g[:4] for g in got]]
+        extra = [g[:4] for g in got if g[:4] not in [e[:4] for e in exp]]
         names = {x[0] for x in missing + extra}
         if invented and names <= set(invented):
             sig = "C06:prefetch-bp-threshold-converted-at-query-original-scaled"
         else:
             sig = f"C06:cli:prefetch-{'omitted' if missing else 'invented'}"
-        bad.append((idx, sig, f"`{line}`: CSV rows {sorted(got)[:4]} expected {sorted(exp)[:4]}; missing {missing[:3]} extra {extra[:3]} (threshold_bp={bp})"))
-    if sorted(x.rsplit("/", 2)[0] + "/" + x.rsplit("/", 2)[1][:8] for x in o["A"]) != sorted(f"{g[0]}/{g[1]}" for g in got):
+        bad.append((idx, sig, f"`{line}`: CSV rows {sorted(g[:4] for g in got)[:4]} expected {sorted(e[:4] for e in exp)[:4]}; "
+                              f"missing {missing[:3]} extra {extra[:3]} (threshold_bp={bp})"))
+    else:
+        # the other columns: query_bp : match_bp : query_n_hashes : jaccard : ksize : moltype : query_abundance
+        for g in got:
+            if not any(g == e for e in exp):
+                want = [e[4] for e in exp if e[:4] == g[:4]]
+                bad.append((idx, "C06:cli:prefetch-row-fields", f"`{line}`: row for {g[0]} has query_bp:match_bp:query_n_hashes:jaccard:"
+                                                                f"ksize:moltype:query_abundance = {g[4]}, expected {want[:2]}"))
+                break
+    if sorted(x.split("|")[0] + "/" + x.split("|")[1][:8] for x in o["A"]) != sorted(f"{g[0]}/{g[1]}" for g in got):
         bad.append((idx, "C06:cli:prefetch-differs-from-api", f"`{line}`: CSV rows {o['C'][:3]} != in-process {o['A'][:3]}"))
-    if sorted(x.split("/")[0] + "/" + x.split("/")[1][:8] for x in o["S"]) != sorted(f"{g[0]}/{g[1]}" for g in got):
+    if sorted({x.split("/")[0] + "/" + x.split("/")[1][:8] for x in o["S"]}) != sorted({f"{g[0]}/{g[1]}" for g in got}):
         bad.append((idx, "C06:cli:save-matches-differs-from-rows", f"`{line}`: --save-matches holds {o['S'][:3]}, the CSV {o['C'][:3]}"))
     # matching / unmatched query hashes at the coarsest scaled among the query and the matches
     by_name = {}
@@ -741,7 +888,51 @@ def gen_order_case(rng):
     return lines
 
 
+def gen_cli_num_case(rng):
+    """`sourmash search` on num sketches (one num value; a smaller-num query is downsampled by Index.find)"""
+    num = rng.choice([3, 5, 8])
+    pool = sorted(set(rng.sample(range(1, 60), 24)) | {2 ** 63, U64})
+    core = rng.sample(pool, 6)
+    lines, G = [], {}
+
+    def mk(i, n):
+        hs = [h for h in core if rng.random() < 0.7] + rng.sample(pool, rng.randint(1, 5))
+        g = _G(n, 0, hs)
+        g.name = f"s{i}"
+        G[i] = g
+        lines.append(_sketch_line(i, n, 0, False, g.name, g.hashes, rng))
+        return g
+    n = rng.randint(3, 8)
+    for i in range(n):
+        mk(i, num)
+    lines.append("db " + " ".join(map(str, range(n))))
+    for qid in (40, 41):
+        q = mk(qid, rng.choice([num, num, num, max(2, num - 2)]))
+        lines.append(f"q {qid}")
+        for _ in range(2):
+            ids = list(range(n))
+            rng.shuffle(ids)
+            k = rng.randint(1, min(2, n))
+            parts = [rng.choice(["sig", "dir", "zip", "mf", "plist", "sbt"] if q.num == num else ["sig", "dir", "zip", "mf", "plist"])
+                     + ":" + ",".join(map(str, ids[j::k])) for j in range(k)]
+            fr = []
+            for d in (G[i] for i in range(n)):
+                qs, sh, ds, tot = sizes(q, d)
+                if tot and sh:
+                    fr.append(sh / tot)
+            t = repr(rng.choice(fr)) if fr and rng.random() < 0.6 else rng.choice(["0", "0.08", "0.5"])
+            mode = "j" if rng.random() < 0.85 else "c"
+            lines.append(f"clisearch {';'.join(parts)} {mode} {int(rng.random() < 0.2)} {t} {rng.choice([0, 2, 20])} 1")
+    return lines
+
+
 def gen_cli_case(rng):
+    if rng.random() < 0.12:
+        return gen_cli_num_case(rng)
+    return _gen_cli_case(rng)
+
+
+def _gen_cli_case(rng):
     """command-line tier: a handful of sketches spread over 1-3 database files of different kinds, searched with
     `sourmash search` / `sourmash prefetch`; thresholds as decimal TEXT (exact repr of a score = a tie, a 3-digit rounding of
     it, the default 0.08), threshold-bp on / half a base pair around an occurring overlap"""
@@ -759,10 +950,12 @@ def gen_cli_case(rng):
         lines.append(_sketch_line(i, 0, sc, track, g.name, g.hashes, rng))
         return g
     n = rng.randint(3, 9)
-    abund_db = rng.random() < 0.3
+    ra = rng.random()
+    abund_db = ra < 0.35
+    all_abund = ra < 0.15                   # every sketch tracks abundances: the abundance-weighted search applies
     for i in range(n):
         base = G[rng.randrange(i)].hashes if i and rng.random() < 0.1 else None
-        mk(i, rng.choice(scaleds), track=(abund_db and rng.random() < 0.5), base=base)
+        mk(i, rng.choice(scaleds), track=(all_abund or (abund_db and rng.random() < 0.5)), base=base)
     lines.append("db " + " ".join(map(str, range(n))))
 
     def dbspec():
@@ -774,13 +967,13 @@ def gen_cli_case(rng):
             groups[1] = groups[1] + groups[0][:1]        # the same sketch in two databases
         parts = []
         for g in groups:
-            kinds = ["sig", "dir", "zip", "mf"]
+            kinds = ["sig", "dir", "zip", "mf", "plist"]
             homog = len({G[i].sc for i in g}) == 1
             flat = not any(G[i].track for i in g)
             if homog:
                 kinds.append("sbt")
-            if flat:
-                kinds.append("lca")
+            if flat and len({G[i].name for i in g}) == len(g):
+                kinds += ["lca", "lcasql"]
             if homog and flat:
                 kinds += ["sql", "sql"]
             parts.append(rng.choice(kinds) + ":" + ",".join(map(str, g)))
@@ -791,7 +984,7 @@ def gen_cli_case(rng):
         sc = rng.choice(scaleds + [1, 2, 4, 10])
         src = G[rng.randrange(n)]
         base = (src.hashes + rng.sample(pool, 3)) if rng.random() < 0.5 else None
-        q = mk(qid, sc, track=(r < 0.25), base=base)
+        q = mk(qid, sc, track=(r < 0.25 or (all_abund and r < 0.7)), base=base)
         lines.append(f"q {qid}")
         qid += 1
         db = [G[i] for i in range(n)]
@@ -810,7 +1003,11 @@ def gen_cli_case(rng):
                 t = f"{rng.choice(fr):.3f}"              # the decimal a user would type
             else:
                 t = rng.choice(["0", "0.08", "0.5", "1.0", "1e-1"])
-            lines.append(f"clisearch {dbspec()} {mode} {int(rng.random() < 0.2)} {t} {rng.choice([0, 1, 2, 3, 20])} {int(rng.random() < 0.6)}")
+            ignore = int(rng.random() < (0.3 if (all_abund and q.track) else 0.6))
+            if all_abund and q.track and not ignore:
+                mode = "j" if rng.random() < 0.85 else mode
+                t = rng.choice(["0", "0.08", "0.3", "0.5", "0.9"])
+            lines.append(f"clisearch {dbspec()} {mode} {int(rng.random() < 0.25)} {t} {rng.choice([0, 1, 2, 3, 20])} {ignore}")
         for _ in range(rng.randint(1, 2)):
             bps = [0.0]
             for d in db:
@@ -871,6 +1068,7 @@ def _gen_case(rng, flavour):
         return g
 
     allow_track = flavour in ("mixed", "num") and rng.random() < 0.4
+    all_track = allow_track and rng.random() < 0.25     # every sketch with abundances: Index.search_abund applies
     dbids = []
     for i in range(ndb):
         base = None
@@ -878,7 +1076,7 @@ def _gen_case(rng, flavour):
             base = G[rng.choice(dbids)].hashes      # same content, other name (same md5)
         sc = rng.choice(scaleds)
         num = rng.choice(nums)
-        mk(i, num, sc, track=(allow_track and rng.random() < 0.25), base=base)
+        mk(i, num, sc, track=(all_track or (allow_track and rng.random() < 0.25)), base=base)
         dbids.append(i)
     order = list(dbids)
     rng.shuffle(order)
@@ -887,11 +1085,14 @@ def _gen_case(rng, flavour):
     homog = len({(g.sc, g.num) for g in db}) <= 1 and not any(g.track for g in db)
     # containers this case may use
     conts = ["lin"] + rng.sample(LINEAR[1:], 2)
+    if "zipnm" in conts and len({tuple(g.hashes) for g in db}) < len(db):
+        # without its manifest a zip file only shows one of several members with the same md5 (C10's subject)
+        conts[conts.index("zipnm")] = "zip"
     if flavour == "num":
         if len({g.num for g in db}) <= 1:
             conts.append(_rand_sbt(rng))
     elif homog:
-        conts += [_rand_sbt(rng), "lca", "sql"]
+        conts += [_rand_sbt(rng), "lca", "sql"] + (["lcasql"] if db else [])
         if rng.random() < 0.5:
             conts.append(_rand_sbt(rng))
     else:
@@ -916,7 +1117,7 @@ def _gen_case(rng, flavour):
                 g = mk(qid, 0, min(sc, src.sc) if rng.random() < 0.5 else src.sc, base=src.hashes + rng.sample(pool, 2))
             elif r < 0.25:
                 g = mk(qid, rng.choice([3, 5]), 0)
-            elif r < 0.29:
+            elif r < (0.75 if all_track else 0.29):
                 g = mk(qid, 0, sc, track=True)
             else:
                 g = mk(qid, 0, sc)
@@ -925,6 +1126,17 @@ def _gen_case(rng, flavour):
         q = g
         nops = rng.randint(3, 6)
         for _ in range(nops):
+            if flavour in ("homog", "mixed") and rng.random() < 0.08 and len(db) < 30 and "zipnm" not in conts:
+                # the database grows in the middle of a history: a new sketch (same kind as the others) is inserted
+                tmpl = rng.choice(db) if db else None
+                if tmpl is not None and not tmpl.track:
+                    nid = 50 + sum(1 for k in G if 50 <= k < 64)
+                    if nid > 63:
+                        continue
+                    g2 = mk(nid, tmpl.num, tmpl.sc)
+                    lines.append(f"insert {nid}")
+                    db.append(g2)
+                    continue
             spec = rng.choice(conts)
             r = rng.random()
             if q.num and rng.random() < 0.8:
